@@ -2,8 +2,9 @@
 """keep_seed.py <PROP> <variant> <detected_by or 'MISSED'> <one-line needs>  -- copy a confirmed seed from /tmp/wt-<PROP> into /verif/seeded/"""
 import json, os, shutil, sys
 prop, var, det, needs = sys.argv[1:5]
+target = sys.argv[5] if len(sys.argv) > 5 else var
 src = '/tmp/wt-%s/seeded/%s' % (prop, var)
-dst = '/verif/seeded/%s-%s' % (prop, var)
+dst = '/verif/seeded/%s-%s' % (prop, target)
 os.makedirs(dst, exist_ok=True)
 for f in ('patch.diff', 'demo.diff', 'NOTES.md'):
     shutil.copy(os.path.join(src, f), os.path.join(dst, f))
